@@ -63,6 +63,8 @@ func (ex *Exec) call(fr *Frame, st *State, c *ssa.CallCommon, site ssa.Instructi
 		name = ifaceMethodName(c.Value.Type(), c.Method)
 	} else if callee := c.StaticCallee(); callee != nil {
 		name = funcShortName(callee)
+	} else if fn := funcFieldName(c.Value); fn != "" {
+		name = fn
 	}
 	var clauses []*CallClause
 	if name != "" && ex.discover == nil {
@@ -170,6 +172,11 @@ func (ex *Exec) callInner(fr *Frame, st *State, c *ssa.CallCommon, site ssa.Inst
 		return ex.callFunction(fr, st, fv.F.Fn, args, fv.F.Bindings, retT, site)
 	}
 	ex.oblige(st, "nil", ex.siteWhat(site), ex.tb.Ne(fv.C[0], ex.refLit(0)), site, "call of nil function value")
+	if fname := funcFieldName(c.Value); fname != "" {
+		if spec := ex.prog.externFor(fname); spec != nil {
+			return ex.callSpec(fr, st, spec, args, retT, site)
+		}
+	}
 	return ex.unknownCall(st, "funcvalue:"+c.Value.Name(), args, retT, site)
 }
 
@@ -1570,4 +1577,33 @@ func (ex *Exec) functionalResult(c *FuncContract, args []*Value, retT types.Type
 		v.C[i] = ex.tb.App(name, comp.Sort, as...)
 	}
 	return v
+}
+
+// funcFieldName: "field:pkg.T.f" when v is a function value loaded from field f of struct T.
+func funcFieldName(v ssa.Value) string {
+	ld, ok := v.(*ssa.UnOp)
+	if !ok || ld.Op != token.MUL {
+		return ""
+	}
+	fa, ok := ld.X.(*ssa.FieldAddr)
+	if !ok {
+		return ""
+	}
+	pt, ok := fa.X.Type().Underlying().(*types.Pointer)
+	if !ok {
+		return ""
+	}
+	n, ok := pt.Elem().(*types.Named)
+	if !ok {
+		return ""
+	}
+	st, ok := n.Underlying().(*types.Struct)
+	if !ok {
+		return ""
+	}
+	pkg := ""
+	if n.Obj().Pkg() != nil {
+		pkg = n.Obj().Pkg().Name() + "."
+	}
+	return "field:" + pkg + n.Obj().Name() + "." + st.Field(fa.Field).Name()
 }
